@@ -455,7 +455,7 @@ INJ = 'two different groups forge to identical bytes'
 
 def run_shard(spec, tier):
     r = Result()
-    seen = {}      # h64(forged) -> h64(reference bytes of the group)
+    seen = {}      # h64(forged) -> (h64(reference bytes of the group), the group)
     cache = {}
     g = None
     first = True
@@ -482,8 +482,8 @@ def run_shard(spec, tier):
                 r.extra['distinct_groups_without_forged_bytes'] += 1
         elif not alias:
             r.state(forged)
-            if seen.setdefault(h64(forged), rk) != rk:
-                other = next(x for x, al in cases(spec, tier) if not al and _forge_or_none(x) == forged and h64(T.encode(x)) != rk)
+            first_rk, other = seen.setdefault(h64(forged), (rk, g))
+            if first_rk != rk:     # the first group with these bytes is kept: no rescan of the shard per collision
                 r.viol(INJ, {'injectivity': [other, g]}, f'forged={forged.hex()}')
                 r.out('injectivity: collision')
         r.out(outcome(g, vs))
